@@ -8,7 +8,7 @@
 (*   C09  static figures >= what the VM measures / the size model says     *)
 (* Bag shape: records are fanned out over TLC workers (two-level Next).    *)
 (***************************************************************************)
-EXTENDS Verify, Json, IOUtils, SequencesExt, FiniteSetsExt
+EXTENDS Verify, Satisfier, Json, IOUtils, SequencesExt, FiniteSetsExt
 
 ASSUME TLCSet(1, ndJsonDeserialize(IOEnv.TRACE))
 Rec == TLCGet(1)
@@ -29,6 +29,18 @@ HashesIn(m) ==
       H(x) == (IF x.f \in HashFrags THEN {<<x.f, x.n>>} ELSE {})
               \cup UNION {H(x.xs[q]) : q \in 1..Len(x.xs)}
   IN H(m)
+
+\* L2 conformance: the satisfier algorithm of Satisfier.tla predicts the exact answer of
+\* get_satisfaction / get_satisfaction_mall.  A difference is DRIFT (the properties are judged
+\* against L1 below), reported so that a change of the chooser never goes unnoticed.
+L2Agrees(ev, j) ==
+  LET r == ev.res[j]
+      w == World(r.w)
+      p == LSat(ev.ast, w, ev.ctx, r.mode = "mall")
+  IN
+  r.route # "desc" \/ r.r = "panic"
+  \/ (IF r.r = "ok" THEN p.k = "st" /\ p.w = r.inp.stack ELSE p.k # "st")
+  \/ Report("INFO", "drift_l2_satisfier", ev, j, <<r.mode, r.r, p.k, p.w>>)
 
 \* judge result j of event ev; always TRUE (verdicts are printed)
 JudgeRes(ev, j) ==
@@ -84,7 +96,7 @@ JudgeRes(ev, j) ==
 JudgeEvent(ev) ==
   IF ev.parse # "ok"
   THEN Report("INFO", "parse_" \o ev.parse, ev, 0, ev.msg)
-  ELSE \A j \in 1..Len(ev.res) : JudgeRes(ev, j)
+  ELSE \A j \in 1..Len(ev.res) : JudgeRes(ev, j) /\ L2Agrees(ev, j)
 
 Inv == i > 0 => JudgeEvent(Rec[i])
 
